@@ -70,9 +70,12 @@ class PropertyGroup(ABC):
         self._properties: list[uuid.UUID] | None = None
         self._property_group_type = property_group_type
 
-        parent.add_children([self])
-
         map_attributes(self, **kwargs)
+
+        if self.parent.workspace.find_entity(self.uid) is not None:
+            raise RuntimeError(f"Key '{self.uid}' already used.")
+
+        parent.add_children([self])
 
         self.parent.workspace.register(self)
 
